@@ -2127,7 +2127,10 @@ def _set(
         cls = type(self)
         __dict__ = self.__dict__
         if __dict__["_tensordict"].is_locked:
-            raise RuntimeError(_LOCK_ERROR)
+            # a locked tensorclass only accepts an in-place write into an existing entry
+            # (as TensorDict.set(..., inplace=True) does); checked before anything is modified
+            if not inplace or key not in __dict__["_tensordict"].keys():
+                raise RuntimeError(_LOCK_ERROR)
         # if key in ("batch_size", "names", "device"):
         #     # handled by setattr
         #     return
